@@ -2,3 +2,11 @@ check("C01", "exploration",
       "Differential runtime monitoring: thousands of seeded random pure programs and a classic-program family are executed on the real engine and on an independent reference SLD interpreter; whole answer sequences, termination and final status are compared. Held = held on the executions of this run.",
       "Trusts the reference interpreter (self-tested on pinned ISO examples each run) and the worker's term serializer; STO cases skipped; prefix comparison when the reference exceeds its step budget.",
       "differential testing against an executable reference interpreter (answer-sequence oracle) + step-clock termination oracle", "§3 C01")
+check("C03", "exploration",
+      "Differential runtime monitoring of cut: every clause body of length <=3 over a 12-goal control alphabet is enumerated (exhaustive for one-clause predicates), pairs/triples and 3-level call chains are sampled; each program runs on the engine and on the reference interpreter inside an outer nondeterministic caller, and answer sequences + event logs must be equal. The VerifOnCut hook reports how many choice points each cut discarded.",
+      "Trusts the reference interpreter's ISO cut semantics (self-tested). Cut placements outside the property's scope are not generated.",
+      "differential testing against an executable reference interpreter over exhaustively enumerated control skeletons; cut hook for coverage", "§3 C03")
+check("C04", "exploration",
+      "Differential runtime monitoring of catch/throw: fixed skeletons for every situation the statement names (throw after exit, after redo, non-unifying catchers, shared variables, rethrow, built-in errors) plus seeded random compositions; event log, answers and final error compared with the reference interpreter. The VerifOnRecover hook reports unwinding depth and handled/unhandled counts.",
+      "Trusts the reference interpreter's implementation of ISO 7.8.9/7.8.10 (self-tested); error Context is not compared.",
+      "differential testing against an executable reference interpreter (event-log + answer-sequence oracle)", "§3 C04")
